@@ -1691,6 +1691,127 @@ fn application_family(run: &Run) {
 }
 
 // ---------------------------------------------------------------------------
+// (c3) sparse tuples whose x deltas contain zero runs, drawn
+// ---------------------------------------------------------------------------
+
+/// x delta of the j-th referenced point (of k): a zero run of length `z` at `pos` (0 start, 1 middle,
+/// 2 end), every other value a byte (5 / -6) or a word (300 / -301) delta
+fn zero_run_x(j: usize, k: usize, z: usize, pos: u8, word: bool) -> i16 {
+    let z = z.min(k);
+    let start = match pos {
+        0 => 0,
+        1 => (k - z) / 2,
+        _ => k - z,
+    };
+    if j >= start && j < start + z {
+        0
+    } else if word {
+        if j % 2 == 0 { 300 } else { -301 }
+    } else if j % 2 == 0 {
+        5
+    } else {
+        -6
+    }
+}
+
+fn sparse_run_family(run: &Run) {
+    // two polygon contours of 75 points each
+    let per = 75usize;
+    let mut coords: Vec<(i64, i64)> = (0..per).map(|i| (((i * 37) % 211) as i64, ((i * 91) % 197) as i64 - 60)).collect();
+    coords.extend((0..per).map(|i| (300 + ((i * 53) % 199) as i64, ((i * 29) % 173) as i64)));
+    let ends = vec![per - 1, 2 * per - 1];
+    let n = coords.len();
+    let advance = 600u16;
+    let mut all = coords.clone();
+    all.extend([(0, 0), (advance as i64, 0), (0, 0), (0, 0)]);
+    // referenced point sets
+    let point_sets: Vec<(&str, Vec<usize>)> = vec![
+        ("first only", vec![0]),
+        ("last only", vec![n - 1]),
+        ("every other", (0..n).step_by(2).collect()),
+        ("a whole contour except one point", (0..per).filter(|i| *i != 40).collect()),
+        ("points in two contours", (0..40).chain(per..per + 40).collect()),
+    ];
+    run.bound("c3.point_sets", json!(point_sets.iter().map(|p| format!("{} ({} points)", p.0, p.1.len())).collect::<Vec<_>>()));
+    run.bound("c3.x_zero_runs", json!("length {1, 2, 63, 64, 65} (clamped to the set size) at start / middle / end of the referenced x deltas; other x deltas byte (5/-6) or word (300/-301); y deltas always non-zero (byte or word)"));
+    run.bound("c3.tuple_configs", json!(["one tuple (private point numbers)", "two tuples over the same point set (shared point numbers)"]));
+    let tents = tents_1axis();
+    let make = |set: &Vec<usize>, z: usize, pos: u8, word: bool, region: &Region, salt: i16| -> TupleSpec {
+        let k = set.len();
+        let mut explicit: Vec<Option<(i64, i64)>> = vec![None; n + 4];
+        for (j, &p) in set.iter().enumerate() {
+            let y = if word { 200 + 3 * j as i16 + salt } else { 7 + (j % 50) as i16 + salt };
+            explicit[p] = Some((zero_run_x(j, k, z, pos, word) as i64, y as i64));
+        }
+        let inf = infer(&all, &ends, &explicit);
+        TupleSpec {
+            region: region.clone(),
+            deltas: (0..n + 4)
+                .map(|i| match explicit[i] {
+                    Some((x, y)) => (x as i16, y as i16, true),
+                    None => ((inf[i].0.to_f64() + 0.5).floor() as i16, (inf[i].1.to_f64() + 0.5).floor() as i16, false),
+                })
+                .collect(),
+        }
+    };
+    let mut fonts: Vec<FontSpec> = vec![];
+    let mut seen: HashSet<(usize, usize, u8, bool)> = HashSet::new();
+    for (si, (_, set)) in point_sets.iter().enumerate() {
+        for z in [1usize, 2, 63, 64, 65] {
+            for pos in 0..3u8 {
+                for word in [false, true] {
+                    // a run longer than the set is the whole set; position then makes no difference
+                    let zc = z.min(set.len());
+                    let key = (si, zc, if zc == set.len() { 0 } else { pos }, word);
+                    if !seen.insert(key) {
+                        continue;
+                    }
+                    for shared in [false, true] {
+                        let mut tuples = vec![make(set, z, pos, word, &tents[0], 0)];
+                        if shared {
+                            tuples.push(make(set, (z + 1).min(65), (pos + 1) % 3, !word, &tents[1], 11));
+                        }
+                        fonts.push(FontSpec {
+                            axis_count: 1,
+                            advance,
+                            glyph: GlyphSpec { coords: coords.clone(), ends: ends.clone(), tol2: 2, tuples },
+                        });
+                    }
+                }
+            }
+        }
+    }
+    run.count("c3.fonts", fonts.len() as u64);
+    let sparse_seen = std::sync::atomic::AtomicU64::new(0);
+    let locals: Vec<Local> = fonts
+        .par_iter()
+        .map(|f| {
+            let mut l = Local::new();
+            // the point of the family is the sparse encoding: count how many tuples really are sparse
+            if let Ok(gv) = build_gvar(std::slice::from_ref(&f.glyph), 1) {
+                if let Ok(rg) = rgvar::Gvar::read(FontData::new(&gv)) {
+                    if let Ok(dec) = decode_glyph(&rg, 0, n + 4, 1) {
+                        sparse_seen.fetch_add(dec.iter().filter(|d| !d.all_points).count() as u64, std::sync::atomic::Ordering::Relaxed);
+                    }
+                }
+            }
+            let regions: Vec<Region> = f.glyph.tuples.iter().map(|t| t.region.clone()).collect();
+            let locs: Vec<Vec<i16>> = axis_locations(&regions, 0).iter().map(|x| vec![*x]).collect();
+            check_font(run, f, &locs, &mut l);
+            l
+        })
+        .collect();
+    for l in locals {
+        l.merge(run, "c3");
+    }
+    let sparse = sparse_seen.load(std::sync::atomic::Ordering::Relaxed);
+    run.count("c3.tuples_stored_sparse", sparse);
+    if sparse == 0 {
+        run.machinery_error("c3: no tuple of the zero-run family was stored with explicit point numbers");
+    }
+}
+
+// ---------------------------------------------------------------------------
 // (c2) variable composites
 // ---------------------------------------------------------------------------
 
@@ -2446,5 +2567,6 @@ fn body(run: &Run, replay: Option<&Value>) {
     structured_family(run);
     offsets_family(run);
     application_family(run);
+    sparse_run_family(run);
     composite_family(run);
 }
